@@ -83,6 +83,20 @@ def genOps2 : List (String × R String) := [
         | none => .error .valueError
       let enc := fun (r s _n : Int) => Spec.derEncode r.toNat s.toNat
       pure (ansG hex (Gen.sign_input sign dec enc (atts.length - 1) (List.replicate 32 0) (ht : Int)))),
+  ("g:hdr_parse", do
+      let b ← bytes
+      pure (ansG (fun (h : Py.PyHeader) => s!"{h.version} {hex h.previous_block_hash} {hex h.merkle_root} {h.timestamp} {h.target_bits} {h.nonce}")
+        (Gen.blockheader_from_raw b))),
+  ("g:hdr_ser", do
+      let b ← bytes
+      pure (ansG hex (do
+        let h ← Gen.blockheader_from_raw b
+        Gen.blockheader_serialize h.version h.previous_block_hash h.merkle_root h.timestamp h.target_bits h.nonce))),
+  ("g:hdr_hash", do
+      let b ← bytes
+      pure (ansG hex (do
+        let h ← Gen.blockheader_from_raw b
+        Gen.blockheader_hash Crypto.sha256 h.version h.previous_block_hash h.merkle_root h.timestamp h.target_bits h.nonce))),
   ("g:tr_root", do let t ← tree; pure (ansG hex (Gen.tag_hashed_merkle_root Crypto.sha256 Gen.OP_CODES (some (pyTree t))))),
   ("g:tr_cb", do
       let pub ← bytes; let t ← tree; let k ← nat; let odd ← bool
